@@ -42,7 +42,9 @@ impl XSDT {
 
     pub fn add_entry(&mut self, entry: u64) {
         let old_len = self.header.length.get();
-        let new_len = old_len + core::mem::size_of::<u64>() as u32;
+        let new_len = old_len
+            .checked_add(core::mem::size_of::<u64>() as u32)
+            .expect("table length overflows the 32-bit Length field");
         self.header.length.set(new_len);
 
         self.checksum.delete(old_len.as_bytes());
